@@ -18,6 +18,7 @@ import (
 	"context"
 	"encoding/json"
 	"fmt"
+	"io"
 	"os"
 	"os/exec"
 	"reflect"
@@ -106,6 +107,93 @@ type auxScanner struct {
 	processors.DefaultTagScanDefinitionRegistryPostProcessor
 }
 
+// ---- loggers ----------------------------------------------------------------------------------------
+
+// prefLogger is the container logger of this driver, installed through syslog.SetLogger: it prints nothing and
+// remembers the prefixes it was derived with, so that the logger a `logger` point received tells the prefix the
+// container asked for (syslog.Pref(p) = root.Pref(p), cached per prefix).  Panic / Fatal do not panic, like the
+// library's own logger under hx.Quiet() as far as outcomes go (Panic is below LvFatal there).  loud (the input's
+// `verbose` flag): every message is really formatted (into io.Discard), as under a debug / trace log level.
+type prefLogger struct {
+	prefs []string
+	loud  bool
+}
+
+func (l *prefLogger) Level(syslog.Lv) syslog.Logger { return l }
+func (l *prefLogger) Pref(p any) syslog.Logger {
+	return &prefLogger{prefs: append(append([]string(nil), l.prefs...), fmt.Sprint(p)), loud: l.loud}
+}
+func (l *prefLogger) ln(v ...any) {
+	if l.loud {
+		_, _ = fmt.Fprintln(io.Discard, v...)
+	}
+}
+func (l *prefLogger) f(format string, v ...any) {
+	if l.loud {
+		_, _ = fmt.Fprintf(io.Discard, format, v...)
+	}
+}
+func (l *prefLogger) Trace(v ...any)            { l.ln(v...) }
+func (l *prefLogger) Tracef(f string, v ...any) { l.f(f, v...) }
+func (l *prefLogger) Debug(v ...any)            { l.ln(v...) }
+func (l *prefLogger) Debugf(f string, v ...any) { l.f(f, v...) }
+func (l *prefLogger) Info(v ...any)             { l.ln(v...) }
+func (l *prefLogger) Infof(f string, v ...any)  { l.f(f, v...) }
+func (l *prefLogger) Warn(v ...any)             { l.ln(v...) }
+func (l *prefLogger) Warnf(f string, v ...any)  { l.f(f, v...) }
+func (l *prefLogger) Error(v ...any)            { l.ln(v...) }
+func (l *prefLogger) Errorf(f string, v ...any) { l.f(f, v...) }
+func (l *prefLogger) Panic(v ...any)            { l.ln(v...) }
+func (l *prefLogger) Panicf(f string, v ...any) { l.f(f, v...) }
+func (l *prefLogger) Fatal(v ...any)            { l.ln(v...) }
+func (l *prefLogger) Fatalf(f string, v ...any) { l.f(f, v...) }
+
+var loggerType = reflect.TypeOf((*syslog.Logger)(nil)).Elem()
+
+// describeLogger renders the logger a field holds: the prefix it was made for, with the name of the component the
+// field belongs to written as "@" (so that a shape and its flattened twin, two components, are comparable), and
+// whether it is THE logger syslog.Pref hands out for that prefix (one shared logger per prefix).
+func describeLogger(v reflect.Value, comp string) string {
+	l, ok := v.Interface().(*prefLogger)
+	if !ok {
+		return "?foreign:" + v.Elem().Type().String()
+	}
+	if len(l.prefs) != 1 {
+		return fmt.Sprintf("?derived%d:%s", len(l.prefs), strings.Join(l.prefs, "|"))
+	}
+	p := l.prefs[0]
+	out := p
+	if strings.HasPrefix(p, comp) {
+		out = "@" + p[len(comp):]
+	}
+	if syslog.Pref(p) != syslog.Logger(l) {
+		out += "!not-the-shared-logger-of-this-prefix"
+	}
+	return out
+}
+
+// dumpLoggers lists every non-nil field of type syslog.Logger below v with its path and describeLogger
+func dumpLoggers(v reflect.Value, path string, comp string, out *[][]string) {
+	for i := 0; i < v.NumField(); i++ {
+		sf := v.Type().Field(i)
+		f := open(v.Field(i))
+		p := sf.Name
+		if path != "" {
+			p = path + "." + sf.Name
+		}
+		switch {
+		case f.Kind() == reflect.Struct:
+			dumpLoggers(f, p, comp, out)
+		case f.Kind() == reflect.Ptr && f.Type() != depPtrType && f.Type().Elem().Kind() == reflect.Struct:
+			if !f.IsNil() {
+				dumpLoggers(f.Elem(), p, comp, out)
+			}
+		case f.Type() == loggerType && !f.IsNil():
+			*out = append(*out, []string{p, describeLogger(f, comp)})
+		}
+	}
+}
+
 // ---- shapes -----------------------------------------------------------------------------------------
 
 type Node struct {
@@ -136,6 +224,7 @@ type Snap struct {
 	Before [][]string `json:"before"`
 	After  [][]string `json:"after"`
 	Props  []propRec  `json:"props"`
+	Logs   [][]string `json:"logs"` // [path, prefix as describeLogger renders it] of every non-nil syslog.Logger field after Run
 }
 
 // a registered tag processor as found in the running App (facts read back from the real constructors)
@@ -353,8 +442,10 @@ func runCase(c Case) Out {
 	})
 	if out.Main != nil {
 		_ = hx.Guard(func() { dump(mainV.Elem(), "", &out.Main.After) })
+		_ = hx.Guard(func() { dumpLoggers(mainV.Elem(), "", out.Main.Name, &out.Main.Logs) })
 		if out.Flat != nil {
 			_ = hx.Guard(func() { dump(flatV.Elem(), "", &out.Flat.After) })
+			_ = hx.Guard(func() { dumpLoggers(flatV.Elem(), "", out.Flat.Name, &out.Flat.Logs) })
 		}
 		if rec != nil {
 			for _, r := range rec.recs {
@@ -430,7 +521,8 @@ func runChunk(cases []Case) []Out {
 func main() {
 	hx.Quiet()
 	var in Input
-	hx.ReadInput(&in)
+	hx.ReadInput(&in) // the input's `verbose` flag (inherited by the child processes) selects the formatting logger
+	syslog.SetLogger(&prefLogger{loud: hx.IsVerbose()})
 	if os.Getenv("VERIF_C11_CHILD") == "1" {
 		outs := make([]Out, 0, len(in.Cases))
 		for _, c := range in.Cases {
